@@ -2,6 +2,7 @@ package harness
 
 import (
 	"bytes"
+	"context"
 	"fmt"
 	"io"
 	"log"
@@ -13,6 +14,7 @@ import (
 	"sync"
 	"time"
 
+	"github.com/google/inverting-proxy/utils/tcpbridge/connection"
 	bridgebackend "github.com/google/inverting-proxy/utils/tcpbridge/tcp-bridge-backend"
 	bridgefrontend "github.com/google/inverting-proxy/utils/tcpbridge/tcp-bridge-frontend"
 
@@ -30,23 +32,75 @@ func init() {
 // tunnel as soon as either of its copy directions ends.
 var bridgeViaLB bool
 
+// bridgeLBNoHalfClose: the intermediary is of the kind that ends the whole tunnel
+// as soon as either direction ends (most load balancers, and net/http/httputil
+// before it learned to pass a half-close on); otherwise it is the stock reverse
+// proxy of the toolchain, which forwards a TCP half-close.
+var bridgeLBNoHalfClose bool
+
 func chooseBridgePath(w *World) {
-	bridgeViaLB = w.T.Rare(1, 4, "via-http-intermediary")
+	k := w.T.Pick("via-http-intermediary", 2, 1, 1)
+	bridgeViaLB = k != 0
+	bridgeLBNoHalfClose = k == 2
 	if bridgeViaLB {
 		w.Probe("websocket_leg_through_http_intermediary")
 	}
+	if bridgeLBNoHalfClose {
+		w.Probe("intermediary_without_half_close")
+	}
 }
+
+// bridgeHopHangs: the hop the frontend dials accepts the TCP connection and never
+// answers the websocket handshake (a wedged proxy or load balancer).
+var bridgeHopHangs bool
 
 func startBridge(w *World) {
 	sim.SetArgs("tcp-bridge-backend", "-frontend-port=8080", "-backend-port=8081")
 	w.K.Spawn("bback", bridgebackend.Main)
 	target := "ws://bback:8080/"
+	if bridgeHopHangs {
+		target = "ws://mute:8080/"
+		w.K.Spawn("mute", func() {
+			l, err := sim.Listen("tcp", ":8080")
+			if err != nil {
+				panic(err)
+			}
+			for {
+				c, err := l.Accept()
+				if err != nil {
+					return
+				}
+				go io.Copy(io.Discard, c) // reads, never answers, never closes
+			}
+		})
+	}
 	if bridgeViaLB {
 		target = "ws://lb:8080/"
 		w.K.Spawn("lb", func() {
 			l, err := sim.Listen("tcp", ":8080")
 			if err != nil {
 				panic(err)
+			}
+			if bridgeLBNoHalfClose {
+				for {
+					c, err := l.Accept()
+					if err != nil {
+						return
+					}
+					go func() {
+						b, err := sim.Dial("tcp", "bback:8080")
+						if err != nil {
+							c.Close()
+							return
+						}
+						done := make(chan struct{}, 2)
+						go func() { io.Copy(b, c); done <- struct{}{} }()
+						go func() { io.Copy(c, b); done <- struct{}{} }()
+						<-done
+						c.Close()
+						b.Close()
+					}()
+				}
 			}
 			u, _ := url.Parse("http://bback:8080")
 			rp := httputil.NewSingleHostReverseProxy(u)
@@ -105,6 +159,10 @@ type bridgeConn struct {
 	SrvSaw bool
 	// Greeted: the server's unprompted greeting arrived before the client wrote anything
 	Greeted bool
+	// Lib: the client is a program that embeds the bridge as a library: it calls
+	// connection.DialWebsocket itself and writes to the returned net.Conn (empty
+	// writes included) instead of going through the frontend program
+	Lib bool
 }
 
 // bridgeGreeting, if non-empty, is what the TCP server sends on every accepted
@@ -257,7 +315,18 @@ func bridgeWorld(w *World, mu *sync.Mutex, conns []*bridgeConn, after func()) {
 		wg.Add(1)
 		w.K.Spawn(fmt.Sprintf("tcpclient%d", bc.I), func() {
 			defer wg.Done()
-			c, err := sim.Dial("tcp", "bfront:9000")
+			var c net.Conn
+			var err error
+			if bc.Lib {
+				target := "ws://bback:8080"
+				if bridgeViaLB {
+					target = "ws://lb:8080"
+				}
+				u, _ := url.Parse(target + connection.StreamingPath)
+				c, err = connection.DialWebsocket(context.Background(), u, nil)
+			} else {
+				c, err = sim.Dial("tcp", "bfront:9000")
+			}
 			if err != nil {
 				mu.Lock()
 				bc.C.ReadErr = "dial: " + err.Error()
@@ -348,6 +417,10 @@ func worldC15(w *World) {
 	conns := make([]*bridgeConn, n)
 	for i := range conns {
 		conns[i] = &bridgeConn{I: i, C: genSide(t, thorough), S: genSide(t, thorough)}
+		if t.Rare(1, 5, "library-client") {
+			conns[i].Lib = true
+			w.Probe("client_embeds_the_bridge_as_a_library")
+		}
 		if t.Rare(1, 3, "orderly-end") {
 			// both peers end their direction when they have written everything, read to
 			// the end of the opposite direction and only then close: nothing may be lost
@@ -543,6 +616,15 @@ func worldC16(w *World) {
 		}
 		w.Probe("tcp_server_down")
 	}
+	// ... or the hop behind the frontend hangs: same expectation
+	bridgeHopHangs = !serverDown && !bridgeViaLB && t.Rare(1, 10, "hop-hangs")
+	if bridgeHopHangs {
+		for _, bc := range conns {
+			bc.C.CloseAfterWrites, bc.S.CloseAfterWrites = false, false
+		}
+		serverDown = true // (for the oracle: the TCP server is never reached)
+		w.Probe("next_hop_never_answers_the_handshake")
+	}
 	mu := &sync.Mutex{}
 	bridgeWorld(w, mu, conns, func() {
 		// everything is written and closed within ~10 s; then the budget
@@ -616,7 +698,7 @@ func worldC16(w *World) {
 		}
 		// no bridged connection outlives both of its endpoints
 		open := w.K.OpenConns(func(local, remote, tag string) bool {
-			return strings.HasPrefix(remote, "bback:8080") || strings.HasPrefix(local, "bback:8080") || strings.HasPrefix(remote, "bback:8081") || strings.HasPrefix(local, "bfront:9000")
+			return strings.HasPrefix(remote, "bback:8080") || strings.HasPrefix(local, "bback:8080") || strings.HasPrefix(remote, "bback:8081") || strings.HasPrefix(local, "bfront:9000") || strings.HasPrefix(remote, "mute:8080")
 		})
 		allClosed := true
 		for _, bc := range conns {
